@@ -1,0 +1,131 @@
+//go:build verif
+
+// Read-only structure statistics and a package-state reset for the /verif harness.
+// Add-only: nothing here is compiled without the `verif` build tag.
+
+package table
+
+// VerifPitCsStats describes the structures behind a PIT-CS table.
+type VerifPitCsStats struct {
+	Nodes        int // tree nodes, root excluded
+	PitEntries   int // PIT entries reachable in the tree
+	CsEntries    int // CS entries reachable in the tree
+	NodesNeeded  int // nodes (root excluded) on a path from the root to a node holding a PIT or CS entry
+	TokenMap     int
+	ExpiryQueue  int
+	CsMap        int
+	LruQueue     int
+	LruLocations int
+	NPit         int // the counter reported by PitSize()
+	NCs          int // the counter reported by CsSize()
+}
+
+// VerifPitCsStatsOf walks the name tree of a PIT-CS table.
+func VerifPitCsStatsOf(t PitCsTable) VerifPitCsStats {
+	p := t.(*PitCsTree)
+	s := VerifPitCsStats{
+		TokenMap:    len(p.pitTokenMap),
+		ExpiryQueue: p.pitExpiryQueue.Len(),
+		CsMap:       len(p.csMap),
+		NPit:        p.nPitEntries,
+		NCs:         p.nCsEntries,
+	}
+	if l, ok := p.csReplacement.(*CsLRU); ok {
+		s.LruQueue = l.queue.Len()
+		s.LruLocations = len(l.locations)
+	}
+	var walk func(n *pitCsTreeNode) bool
+	walk = func(n *pitCsTreeNode) bool {
+		needed := len(n.pitEntries) > 0 || n.csEntry != nil
+		s.PitEntries += len(n.pitEntries)
+		if n.csEntry != nil {
+			s.CsEntries++
+		}
+		for _, c := range n.children {
+			s.Nodes++
+			if walk(c) {
+				needed = true
+			}
+		}
+		if needed && n.parent != nil {
+			s.NodesNeeded++
+		}
+		return needed
+	}
+	walk(p.root)
+	return s
+}
+
+// VerifLen returns the sizes of the dead nonce list's set and expiry queue.
+func (d *DeadNonceList) VerifLen() (list int, queue int) {
+	return len(d.list), d.expirationQueue.Len()
+}
+
+// VerifFibStats describes the structures behind a FIB-strategy table.
+type VerifFibStats struct {
+	Kind        string
+	TreeNodes   int // name tree: nodes, root excluded
+	NodesNeeded int // name tree: nodes (root excluded) on a path to a node with next hops or a strategy
+	Real        int // hash table: entries of the real table
+	Virt        int // hash table: entries of the virtual table
+	VirtNames   int // hash table: entries of the virtual-name table
+}
+
+// VerifFibStatsOf inspects a FIB-strategy table.
+func VerifFibStatsOf(f FibStrategy) VerifFibStats {
+	switch t := f.(type) {
+	case *FibStrategyTree:
+		t.fibStrategyRWMutex.RLock()
+		defer t.fibStrategyRWMutex.RUnlock()
+		s := VerifFibStats{Kind: "nametree"}
+		var walk func(n *fibStrategyTreeEntry) bool
+		walk = func(n *fibStrategyTreeEntry) bool {
+			needed := len(n.nexthops) > 0 || n.strategy != nil
+			for _, c := range n.children {
+				s.TreeNodes++
+				if walk(c) {
+					needed = true
+				}
+			}
+			if needed && n.parent != nil {
+				s.NodesNeeded++
+			}
+			return needed
+		}
+		walk(t.root)
+		return s
+	case *FibStrategyHashTable:
+		t.fibStrategyRWMutex.RLock()
+		defer t.fibStrategyRWMutex.RUnlock()
+		return VerifFibStats{Kind: "hashtable", Real: len(t.realTable), Virt: len(t.virtTable), VirtNames: len(t.virtTableNames)}
+	}
+	return VerifFibStats{Kind: "unknown"}
+}
+
+// VerifRibStats returns the number of RIB tree nodes (root excluded) and the number of
+// those that lie on a path from the root to a node holding routes.
+func VerifRibStats() (nodes int, needed int) {
+	var walk func(n *RibEntry) bool
+	walk = func(n *RibEntry) bool {
+		need := len(n.routes) > 0
+		for c := range n.children {
+			nodes++
+			if walk(c) {
+				need = true
+			}
+		}
+		if need && n.parent != nil {
+			needed++
+		}
+		return need
+	}
+	walk(&Rib.RibEntry)
+	return
+}
+
+// VerifReset re-creates the package-level RIB, readvertiser list and network-region table.
+func VerifReset() {
+	Rib = RibTable{RibEntry: RibEntry{children: map[*RibEntry]bool{}}}
+	readvertisers = make([]RibReadvertise, 0)
+	NetworkRegion = new(networkRegionTable)
+}
